@@ -2,7 +2,8 @@
 
 Spec specs/sem2/ClassFile.tla: a class is a var block (field types int/string/float64/bool/[]int/
 map[string]int/*Self in order; specs per line, merged `a, b int`, or the ungrouped single-spec
-form; exported or not) and an ordered list of methods from six templates (0..2 parameters, 0..2
+form; exported or not; struct tags; a const/type declaration in front of the var block; a package-level
+variable in main.xgo named like a field) and an ordered list of methods from six templates (0..2 parameters, 0..2
 results, reading fields, mutating fields, calling each other).  The machine builds the
 explicit-struct twin (BuildTwin) and runs a fixed driver on an abstract object (Call/Dump); TLC
 checks TwinSame, GroupingIrrelevant, OutputShape (and Terminates on the small grid) and exports
@@ -22,7 +23,7 @@ def run(ctx):
         open(cases, "w").write(ctx.replay["case_record"]["line"] + "\n")
     else:
         t = "quick" if ctx.tier == "quick" else "thorough"
-        for part in ("a", "b"):
+        for part in (("a", "b", "c", "d") if t == "quick" else ("a", "b", "c")):
             ctx.tlc("sem2", "ClassFile", "ClassFile_%s_%s.cfg" % (t, part), cases_path=cases, timeout_s=1500, workers=8)
         if t == "thorough":
             ctx.tlc("sem2", "ClassFile", "ClassFile_live.cfg", cases_path=cases, timeout_s=900, workers=8, coverage=True)
@@ -38,6 +39,8 @@ def run(ctx):
         "field types from {int, string, float64, bool, []int, map[string]int, *Self}; <= 3 fields",
         "field initialisers in a class var block are a syntax error in this tree (parser.parseValueSpec: "
         "'cannot assign value to field in class file'), so initial values are given by the driver's composite literal",
-        "methods come from six templates; embedded fields, tags and generic classes are not enumerated",
+        "methods come from six templates; embedded fields and generic classes are not enumerated",
+        "the driver uses two instances (state must be per instance) and prints the package-level variable that "
+        "shares a field's name (methods must not touch it)",
         "a normal .gox needs no class-kind registration (parser: IsNormalGox when the extension is .gox and no class kind matches)",
     ]
